@@ -373,12 +373,15 @@ sts_cbc(Source *source, Sink *sink)
 {
     unsigned char buf;
 
-    const int rc = source_get_octet(source, &buf);
+    /* The single-octet calls hand a driver's result through as it is: zero
+     * ("nothing moved, ask again") would pass an octet on that was never read,
+     * or drop one that was. The exact calls retry until the octet has moved. */
+    const ssize_t rc = source_get_chunk(source, &buf, 1u);
     if (rc < 0) {
-        return (ssize_t)rc;
+        return rc;
     }
 
-    return sink_put_octet(sink, buf);
+    return sink_put_chunk(sink, &buf, 1u);
 }
 
 ssize_t
